@@ -28,6 +28,15 @@ def _cshape(o):
     return ("k%s" % o[1]["v"]) if o[0] == "k" and "v" in o[1] else "v"
 
 
+def _safe_divisor(o):
+    if o[0] != "k" or "v" not in o[1]:
+        return False
+    try:
+        return int(o[1]["v"]) not in (0, -1)
+    except (TypeError, ValueError):
+        return False
+
+
 def collect(facts, files, unit="cedar_policy_core.lib"):
     """-> {key: [ (fn, line) ... ]} for hand-written functions of the given files."""
     facts.load_crate(unit)
@@ -46,6 +55,9 @@ def collect(facts, files, unit="cedar_policy_core.lib"):
             if s[0] != "a":
                 continue
             rv = s[2]
+            if rv[0] == "bin" and rv[1] in ("Div", "Rem") and _safe_divisor(rv[3]):
+                # idiom: division / remainder by a constant other than 0 and -1 neither traps nor overflows, and is exact
+                continue
             if rv[0] == "bin" and rv[1] in ARI and rv[4] in WIDE:
                 k = "%s|raw|%s|%s|%s,%s" % (short_file, rv[1].replace("WithOverflow", ""), rv[4], _cshape(rv[2]), _cshape(rv[3]))
                 out.setdefault(k, []).append((n, s[3]))
@@ -61,6 +73,8 @@ def collect(facts, files, unit="cedar_policy_core.lib"):
             if "::checked_" in c:
                 k = "%s|checked|%s|%s" % (short_file, meth, ty)
                 out.setdefault(k, []).append((n, t[1].get("l")))
+            elif meth in ("rem_euclid", "div_euclid") and len(t[2]) == 2 and _safe_divisor(t[2][1]):
+                continue  # same idiom: total and exact for a constant divisor other than 0 and -1
             elif any(x in c for x in LOOSE):
                 k = "%s|loose|%s|%s" % (short_file, meth, ty)
                 out.setdefault(k, []).append((n, t[1].get("l")))
